@@ -41,6 +41,10 @@ def main():
         c10_mm.run_model_streams(run, drv)
         import c10_ext
         c10_ext.run_ext(run)
+        # return_early=True: result() hands the tensordict back only when every writer task is done, and a load at that moment
+        # returns the tensordict saved (same stream as C12's, seen from the save/load side)
+        import c12_threads
+        c12_threads.run_return_early(run, tag="c10e")
     run.finish("proof")
 
 
